@@ -7,7 +7,8 @@ Driver for the Quorum model (C33).  Requests (one per line):
                                                             ClusterManager::new, then one per op;
                                                             `err` = new rejected the config)
   legacy <cfg> <rf> <ops>   -> same, model of the pinned tree
-  spec   <obs>;<obs>;…      -> ok | viol <k>               (S on *given* observations)
+  spec   <ops> <obs>;…      -> ok | viol <k> <health|membership>   (S on *given* observations:
+                                specObs after `new`, specStep for every later pair)
 
   cfg := c(,c)* | -     c := a<id><v|l>  (ClusterConfig::add_node)  |  p<id><v|l> (raw push)
   ops := op(;op)* | _   op := A<id><v|l> | B<id><v|l> | R<id> | +<id> | -<id> | L<id><L|F|C|N>
@@ -112,11 +113,20 @@ def trace (add : List NodeCfg → Nat → Bool → List NodeCfg) (h : State → 
         let r := stepWith add acc.1 op
         (r.1, obsWith h r.1 r.2 :: acc.2)) (s0, [obsWith h s0 true])).2.reverse)
 
-def firstViolation (os : List Obs) : Option Nat :=
-  let rec go (k : Nat) : List Obs → Option Nat
-    | [] => none
-    | o :: rest => if specObs o then go (k + 1) rest else some k
-  go 0 os
+/-- first observation that violates S: index 0 is the one after `new` (checked with `specObs`),
+index k ≥ 1 the one after op k-1 (checked with `specStep` against its predecessor); the
+string says which clause failed -/
+def firstViolation (ops : List Op) (os : List Obs) : Option (Nat × String) :=
+  match os with
+  | [] => none
+  | o0 :: rest =>
+    if !specObs o0 then some (0, "health") else
+    let rec go (k : Nat) (pre : Obs) : List Op → List Obs → Option (Nat × String)
+      | op :: ops, o :: os =>
+          if specStep pre op o then go (k + 1) o ops os
+          else some (k, if specObs o then "membership" else "health")
+      | _, _ => none
+    go 1 o0 ops rest
 
 def runWith (add : List NodeCfg → Nat → Bool → List NodeCfg) (h : State → Health)
     (cfg rf ops : String) : String :=
@@ -131,11 +141,13 @@ def handle (_ : Unit) (line : String) : Unit × String :=
   match tokens line with
   | ["run", cfg, rf, ops] => ((), runWith cfgAdd health cfg rf ops)
   | ["legacy", cfg, rf, ops] => ((), runWith cfgAddLegacy healthLegacy cfg rf ops)
-  | ["spec", os] => match (os.splitOn ";").mapM parseObs? with
-      | some o => match firstViolation o with
-          | none => ((), "ok")
-          | some k => ((), s!"viol {k}")
-      | none => ((), "bad-op")
+  | ["spec", ops, os] => match parseOps? ops, (os.splitOn ";").mapM parseObs? with
+      | some l, some o =>
+          if o.length != l.length + 1 then ((), "bad-op")
+          else match firstViolation l o with
+            | none => ((), "ok")
+            | some (k, w) => ((), s!"viol {k} {w}")
+      | _, _ => ((), "bad-op")
   | _ => ((), "bad-op")
 
 def main : IO Unit := runDriver () handle
